@@ -83,6 +83,27 @@ pub fn one_run(prop: &str, seed: u64, run: u64, keep_log: bool) -> RunResult {
         profile.max_steps = 300;
         profile.w = [62, 16, 4, 16, 2, 0, 0];
     }
+    // marathons: whatever a contract keeps in a list that grows with the history (or bounds it) is only exercised by
+    // histories far longer than the usual ones
+    if prop == "C11" && cfg.kind == WorldKind::Standard && cfg.vamms.len() == 1 && rng.chance(1, 120) {
+        profile.marathon = Some("funding");
+        profile.min_steps = 380;
+        profile.max_steps = 520;
+        profile.w = [12, 74, 6, 6, 2, 0, 0];
+        profile.p_fault = (0, 100);
+    }
+    if prop == "C18" && cfg.kind == WorldKind::FeedOnly && rng.chance(1, 12) {
+        profile.marathon = Some("feed");
+        profile.min_steps = 560;
+        profile.max_steps = 700;
+    }
+    if matches!(prop, "C15" | "C18" | "C01") && cfg.kind == WorldKind::VammDirect && rng.chance(1, 60) {
+        profile.marathon = Some("blocks");
+        profile.long_busy = false;
+        profile.min_steps = 1100;
+        profile.max_steps = 1300;
+        profile.w = [90, 0, 2, 0, 4, 0, 0];
+    }
     let n_steps = rng.range(profile.min_steps as u64, profile.max_steps as u64) as usize;
     let mut res = RunResult { run, world: Some(cfg.clone()), ..Default::default() };
     let mut r = match Runner::new(&cfg, prop) {
